@@ -50,7 +50,7 @@ def unique_by_contract(ctx, array, return_index=False, return_inverse=False):
     if array.ndim != 1 or array.dtype != INT:
         raise Unsupported('unique of a non-vector')
     N = array.dims[0]
-    n_out = ctx.int('len(unique)', report=False)
+    n_out = length(ctx, 'len(unique)', report=False)
     U = z3.Function(ctx.name('unique'), z3.IntSort(), z3.IntSort())
     INV = z3.Function(ctx.name('inverse'), z3.IntSort(), z3.IntSort())
     W = z3.Function(ctx.name('witness'), z3.IntSort(), z3.IntSort())
@@ -58,6 +58,17 @@ def unique_by_contract(ctx, array, return_index=False, return_inverse=False):
         ctx.assume(f, axiom='contract of evaluable.unique, clause %s (proved from its real body: C05 evaluable:unique harness)' % name)
     ctx.unique_model = dict(U=U, INV=INV, W=W, n_out=n_out, N=N, array=array)
     return PA((n_out,), lambda pos: U(pos[0]), INT, name='unique'), PA((N,), lambda pos: INV(pos[0]), INT, name='inverse')
+
+
+def length(cx, name, report=True):
+    """A symbolic length >= 0; in the bounded refutation mode (nparr.BOUND) it is kept inside the range over which index
+    quantifiers are expanded, like Vec.fresh does -- otherwise a bounded `sat` could be spurious."""
+    from pyvc import nparr
+    n = cx.int(name, report=report)
+    cx.assume(n >= 0)
+    if nparr.BOUND is not None:
+        cx.assume(n <= nparr.BOUND)
+    return n
 
 
 def pure_lemma(cx, clause, hyps, goal):
@@ -113,13 +124,10 @@ class Assparse(Contract):
 
     def setup(self, cx):
         r = self.rank
-        n = [cx.int('shape%d' % k) for k in range(r)]
-        for x in n:
-            cx.assume(x >= 0)
+        n = [length(cx, 'shape%d' % k) for k in range(r)]
         chunks, lens = [], []
         for j in range(self.nchunks if r else 0):
-            m = cx.int('len(chunk%d)' % j)
-            cx.assume(m >= 0)
+            m = length(cx, 'len(chunk%d)' % j)
             idx = [A.fresh(cx, 'chunk%d.index%d' % (j, k), (m,), INT) for k in range(r)]
             val = A.fresh(cx, 'chunk%d.values' % j, (m,), FLOAT)
             for k in range(r):
@@ -259,8 +267,7 @@ class Unique(Contract):
     label = 'return_inverse'
 
     def setup(self, cx):
-        N = cx.int('len(array)')
-        cx.assume(N >= 0)
+        N = length(cx, 'len(array)')
         arr = A.fresh(cx, 'array', (N,), INT, report=False)
         S = State(args=(arr,), kwargs={'return_inverse': True}, N=N, arr=arr, k=cx.int('k'), m=cx.int('m'), made={})
         I = z3.IntSort()
@@ -291,7 +298,7 @@ class Unique(Contract):
             if mask is not S.made.get('mask'):
                 raise Unsupported('Find of another array')
             cnt, F = z3.Function(ctx.name('count'), I, I), z3.Function(ctx.name('find'), I, I)
-            c = ctx.int('len(find)', report=False)
+            c = length(ctx, 'len(find)', report=False)
             ax = ('numpy.nonzero of a bool vector: with count(k) = number of True in mask[0..k] (recurrence), the result has count(n-1) entries, '
                   'is strictly increasing, lists only True positions, and a True position i is entry number count(i)-1')
             ctx.assume(z3.Implies(N > 0, cnt(0) == b(z3.IntVal(0))), axiom=ax)
@@ -564,12 +571,140 @@ def _scenarios():
     return out
 
 
+# ------------------------------------------------------------------------------------------ CSR composition
+
+class AsCsr(Contract):
+    """evaluable.as_csr: COO data as guaranteed by Array.assparse (indices inside the shape, consecutive index pairs strictly
+    increasing lexicographically) + the contract of numeric.compress_indices (what CompressIndices evaluates) give CSR data: the
+    precondition of compress_indices holds (row indices in range and monotone), and within a row the column indices strictly increase."""
+    prop = PROP
+    fn = 'evaluable:as_csr'
+
+    def setup(self, cx):
+        n, nrows, ncols = length(cx, 'len(values)'), length(cx, 'nrows'), length(cx, 'ncols')
+        row, col = A.fresh(cx, 'rowidx', (n,), INT, report=False), A.fresh(cx, 'colidx', (n,), INT, report=False)
+        val = A.fresh(cx, 'values', (n,), FLOAT, report=False)
+        R, C = (lambda u: row.at((u,))), (lambda u: col.at((u,)))
+        ax = 'contract of Array.assparse (C05: index-in-shape, lexicographic-strict) for rank 2'
+        cx.assume(qforall(1, lambda u: z3.Implies(z3.And(0 <= u, u < n), z3.And(0 <= R(u), R(u) < nrows, 0 <= C(u), C(u) < ncols))), axiom=ax)
+        cx.assume(qforall(1, lambda u: z3.Implies(z3.And(0 <= u, u + 1 < n), z3.Or(R(u) < R(u + 1), z3.And(R(u) == R(u + 1), C(u) < C(u + 1))))), axiom=ax)
+        sh = (A.scalar(nrows), A.scalar(ncols))
+        simplified = SObj('Array', attrs={'assparse': (val, (row, col), sh)})
+        array = SObj('Array', attrs={'ndim': 2, 'simplified': simplified})
+        S = State(args=(array,), n=n, nrows=nrows, ncols=ncols, row=row, col=col, val=val, sh=sh, R=R, C=C, u=cx.int('u'), r=cx.int('r'), ci=None)
+
+        def CompressIndices(ctx, indices, length):
+            if indices is not row:
+                return PA((zi(length) + 1,), None, INT, name='CompressIndices(?)')
+            L = zi(length)
+            # precondition of numeric.compress_indices (else it raises ValueError at evaluation time): in range and monotone
+            ctx.oblige('compress-indices-precondition:in-range', qforall(1, lambda k: z3.Implies(z3.And(0 <= k, k < n), z3.And(0 <= R(k), R(k) < L))), kind='safety')
+            ctx.oblige('compress-indices-precondition:monotone', qforall(1, lambda k: z3.Implies(z3.And(0 <= k, k + 1 < n), R(k) <= R(k + 1))), kind='safety')
+            P = z3.Function(ctx.name('rowptr'), z3.IntSort(), z3.IntSort())
+            ax = 'contract of numeric.compress_indices (C05): row pointer from 0 to len(indices), monotone, rowptr[i] <= k < rowptr[i+1] <=> indices[k] = i'
+            ctx.assume(z3.And(P(0) == 0, P(L) == n), axiom=ax)
+            ctx.assume(qforall(1, lambda i: z3.Implies(z3.And(0 <= i, i < L), P(i) <= P(i + 1))), axiom=ax)
+            ctx.assume(qforall(1, lambda i: z3.Implies(z3.And(0 <= i, i <= L), z3.And(0 <= P(i), P(i) <= n))),
+                       axiom='L-MONO: a monotone row pointer from 0 to n stays inside [0, n] (lemmas/LMono.lean)')
+            ctx.assume(qforall(2, lambda i, k: z3.Implies(z3.And(0 <= i, i < L, 0 <= k, k < n), z3.And(P(i) <= k, k < P(i + 1)) == (R(k) == i))), axiom=ax)
+            S.P, S.L = P, L
+            S.ci = PA((L + 1,), lambda pos: P(pos[0]), INT, name='CompressIndices')
+            return S.ci
+        S.globals = {'CompressIndices': CompressIndices}
+        return S
+
+    def ensures(self, cx, S, result):
+        if not (isinstance(result, tuple) and len(result) == 4):
+            return [('result-structure', z3.BoolVal(False))]
+        values, rowptr, colidx, ncols = result
+        if values is not S.val or colidx is not S.col or rowptr is not S.ci or rowptr is None or not isinstance(ncols, PA):
+            return [('result-structure', z3.BoolVal(False))]
+        P, u, r, n = S.P, S.u, S.r, S.n
+        inrow = z3.And(0 <= r, r < S.nrows, P(r) <= u, u + 1 < P(r + 1), 0 <= u)
+        return [('result-structure', z3.BoolVal(True)),
+                ('row-pointer-spans-the-rows', z3.And(rowptr.dims[0] == S.nrows + 1, zi(ncols) == S.ncols)),
+                ('row-pointers-monotone', z3.Implies(z3.And(0 <= r, r < S.nrows), z3.And(0 <= P(r), P(r) <= P(r + 1), P(r + 1) <= n))),
+                ('entries-of-a-row-carry-that-row-index', z3.Implies(z3.And(0 <= r, r < S.nrows, P(r) <= u, u < P(r + 1), 0 <= u, u < n), S.R(u) == r)),
+                ('columns-strictly-increase-within-a-row', z3.Implies(inrow, S.C(u) < S.C(u + 1)))]
+
+    def replay(self, ob):
+        return NativeBounded.script_for('c05b', 'as_csr()')
+
+
+class FunctionAsCoo(Contract):
+    """function.as_coo hands out exactly the COO data of the simplified evaluable array: (values, *indices)."""
+    prop = PROP
+    fn = 'function:as_coo'
+
+    def setup(self, cx):
+        from pyvc.values import SOpaque
+        v, i0, i1, sh = SOpaque('values'), SOpaque('index0'), SOpaque('index1'), SOpaque('shape')
+        arr = SObj('Array', attrs={'as_evaluable_array': SObj('evaluable.Array', attrs={'simplified': SObj('evaluable.Array', attrs={'assparse': (v, (i0, i1), sh)})})})
+        return State(args=(arr,), want=(v, i0, i1))
+
+    def ensures(self, cx, S, result):
+        ok = isinstance(result, tuple) and len(result) == 3 and all(a is b for a, b in zip(result, S.want))
+        return [('values-then-indices', z3.BoolVal(ok))]
+
+    def replay(self, ob):
+        return NativeBounded.script_for('c05b', 'function_coo_csr()')
+
+
+class FunctionAsCsr(Contract):
+    """function.as_csr: ValueError unless the array has two axes; otherwise (values, rowptr, colidx) of evaluable.as_csr."""
+    prop = PROP
+    fn = 'function:as_csr'
+
+    def __init__(self, ndim):
+        self.ndim = ndim
+        self.label = 'ndim=%d' % ndim
+        self.expect_return = ndim == 2
+
+    def setup(self, cx):
+        from pyvc.values import SOpaque
+        ev = SObj('evaluable.Array')
+        arr = SObj('Array', attrs={'ndim': self.ndim, 'as_evaluable_array': ev})
+        S = State(args=(arr,), want=(SOpaque('values'), SOpaque('rowptr'), SOpaque('colidx')), called=[])
+
+        def as_csr(ctx, a):
+            S.called.append(a is ev)
+            return (*S.want, SOpaque('ncols'))
+
+        class Ev:
+            def sym_getattr(self, ctx, name):
+                if name == 'as_csr':
+                    return as_csr
+                raise Unsupported('evaluable.' + name)
+        S.globals = {'evaluable': Ev()}
+        return S
+
+    def ensures(self, cx, S, result):
+        ok = self.ndim == 2 and S.called == [True] and isinstance(result, tuple) and len(result) == 3 and all(a is b for a, b in zip(result, S.want))
+        return [('csr-of-the-evaluable-array', z3.BoolVal(ok))]
+
+    def raises(self, cx, S, e):
+        return e.exc == 'ValueError' and self.ndim != 2
+
+    def replay(self, ob):
+        return NativeBounded.script_for('c05b', 'function_coo_csr()')
+
+
+class Accumulate(NativeBounded):
+    prop = PROP
+    fn = 'numeric:accumulate'
+    bounded = ('exhaustive native enumeration: shapes of rank 0..3 with axis lengths <= 3, up to 3 entries, every index combination, data = distinct '
+               'powers of two (float and int), index given as arrays (bincount branch) and with a slice item (add.at branch)')
+    module = 'c05b'
+    call = 'accumulate_bounded()'
+    clauses = ('equals-docstring-loop', 'shape-and-dtype')
+
+
 def contracts():
     cs = [Unique(), Assparse(0, 0)]
     for r in (1, 2, 3):
         for c in (0, 1, 2):
             cs.append(Assparse(r, c))
-    return cs + _scenarios()
+    return cs + _scenarios() + [AsCsr(), FunctionAsCoo(), FunctionAsCsr(2), FunctionAsCsr(1), FunctionAsCsr(3), Accumulate()]
 
 
 TRUSTED = ['dense (evalf) meanings of the IR constructors in contracts/c05_arr.py (cross-checked natively: native/axioms_c05.py)']
